@@ -275,6 +275,9 @@ func (p *rParser) primary() (*rNode, error) {
 			}
 			return &rNode{Op: "if", Args: []*rNode{c, a, b}}, nil
 		case "forall", "exists":
+			if !(p.p+1 < len(p.toks) && p.toks[p.p].kind == "id" && p.toks[p.p+1].kind == "op" && p.toks[p.p+1].text == ":") {
+				return &rNode{Op: "id", Text: t.text}, nil
+			}
 			v := p.next()
 			if err := p.expect(":"); err != nil {
 				return nil, err
@@ -353,6 +356,8 @@ type rEnv struct {
 	bound   map[string]Term
 	err     error
 	depth   int
+	assuming bool // the formula is being assumed: universally quantified facts become instantiable facts
+	pol     int // polarity of the expression being evaluated: 1 positive, -1 negative, 0 unknown
 }
 
 func (env *rEnv) st() *State {
@@ -449,7 +454,10 @@ func (env *rEnv) eval(n *rNode) Value {
 	case "unary":
 		switch n.Text {
 		case "!":
-			return sym(Not(env.term(n.Args[0])))
+			env.pol = -env.pol
+			t := env.term(n.Args[0])
+			env.pol = -env.pol
+			return sym(Not(t))
 		case "-":
 			return sym(Sub(IntLit(0), env.term(n.Args[0])))
 		case "*":
@@ -462,7 +470,10 @@ func (env *rEnv) eval(n *rNode) Value {
 	case "binary":
 		return env.binary(n)
 	case "if":
+		savedPol := env.pol
+		env.pol = 0
 		c := env.term(n.Args[0])
+		env.pol = savedPol
 		a := env.eval(n.Args[1])
 		b := env.eval(n.Args[2])
 		as, ok1 := a.(VSym)
@@ -563,7 +574,27 @@ func (env *rEnv) eval(n *rNode) Value {
 		if sort == nil {
 			return env.fail("unknown sort %s", ty)
 		}
-		bv := mkT("q!" + name, sort)
+		bv := mkT("q!"+name, sort)
+		if env.assuming && n.Op == "forall" && env.pol == -1 {
+			// assumed universal fact: instantiated later on the terms of each obligation
+			body := n.Args[0]
+			vars := copyVars(env.vars)
+			typs, specs, eng, pre := env.typs, env.specs, env.e, env.pre
+			env.post.addInst(sort, func(s *State, t Term) Term {
+				sub := &rEnv{e: eng, pre: pre, post: s, vars: copyVars(vars), typs: typs, specs: specs}
+				sub.vars[name] = sym(t)
+				r := sub.term(body)
+				if sub.err != nil {
+					return TTrue
+				}
+				return r
+			})
+			return sym(TTrue)
+		}
+		skolem := (n.Op == "forall" && env.pol == 1) || (n.Op == "exists" && env.pol == -1)
+		if skolem {
+			bv = env.e.fresh(env.post, "sk."+name, sort)
+		}
 		saved, had := env.vars[name]
 		env.vars[name] = sym(bv)
 		body := env.term(n.Args[0])
@@ -571,6 +602,9 @@ func (env *rEnv) eval(n *rNode) Value {
 			env.vars[name] = saved
 		} else {
 			delete(env.vars, name)
+		}
+		if skolem {
+			return sym(body)
 		}
 		return sym(mkT(fmt.Sprintf("(%s ((%s %s)) %s)", n.Op, bv.S, sort.Name, body.S), SBool))
 	}
@@ -611,16 +645,24 @@ func (env *rEnv) binary(n *rNode) Value {
 		}
 		return sym(Or(a, env.term(n.Args[1])))
 	case "==>":
+		env.pol = -env.pol
 		a := env.term(n.Args[0])
+		env.pol = -env.pol
 		if a.IsFalse() {
 			return sym(TTrue)
 		}
 		return sym(Implies(a, env.term(n.Args[1])))
 	case "<==>":
+		savedPol := env.pol
+		env.pol = 0
+		defer func() { env.pol = savedPol }()
 		return sym(Eq(env.term(n.Args[0]), env.term(n.Args[1])))
 	case "==", "!=":
+		savedPol := env.pol
+		env.pol = 0
 		a := env.eval(n.Args[0])
 		b := env.eval(n.Args[1])
+		env.pol = savedPol
 		var t Term
 		if _, isdb := a.(rDB); isdb {
 			bb, ok := b.(rDB)
@@ -710,6 +752,8 @@ func (env *rEnv) ident(name string) Value {
 		return VNil{}
 	case "NULL":
 		return sym(nullB)
+	case "NOX":
+		return sym(mkT("NOX", SBytes))
 	case "db":
 		return rDB{env.st().g}
 	case "docs":
